@@ -286,5 +286,9 @@ fn sequences(r: &Report) {
 pub fn run(r: &Report) {
     values(r);
     sequences(r);
+    // (not in the fallback build that `./check` makes when the generated derive definitions do not compile)
+    #[cfg(feature = "derive-family")]
     crate::derive_checks::c13(r);
+    #[cfg(not(feature = "derive-family"))]
+    r.assume("built without the derive schema family: derived values were not fed through the sinks in this run");
 }
